@@ -10,7 +10,8 @@ OBLIGATIONS = ['Yalafi.C03_kinds', 'Yalafi.C03_removeLines_kinds', 'Yalafi.C03_c
                'Yalafi.C03_mix2_e2e', 'Yalafi.C03_mix2_words', 'Yalafi.C03_mix2_e2e_current', 'Yalafi.C03_mix2_example_current', 'Yalafi.C03_mix2_example_ref', 'Yalafi.C03_mix2_example_eval',
                'Yalafi.C03_skip_region_e2e', 'Yalafi.C03_skip_no_leak', 'Yalafi.C19_skip_not_listed', 'Yalafi.C03_skip_source_e2e', 'Yalafi.C03_skip_region_e2e_current', 'Yalafi.C03_skip_markers_current', 'Yalafi.C03_skip_example_current', 'Yalafi.C03_skip_example_ref', 'Yalafi.C03_skip_example_eval', 'Yalafi.C03_skip_source_example_current', 'Yalafi.C03_ltmacros_e2e', 'Yalafi.C03_ltmacros_no_leak', 'Yalafi.C03_ltmacros_e2e_current', 'Yalafi.C03_ltmacros_sel_current', 'Yalafi.C03_ltmacros_example_current', 'Yalafi.C03_ltmacros_example_ref', 'Yalafi.C03_ltmacros_example_eval',
                'Yalafi.C03_mix3_e2e', 'Yalafi.C03_mix3_words', 'Yalafi.C03_mix3_e2e_current', 'Yalafi.C03_mix3_example_current', 'Yalafi.C03_mix3_example_fuel', 'Yalafi.C03_mix3_example_ref', 'Yalafi.C03_mix3_example_eval',
-               'Yalafi.C03_detached_flows_e2e', 'Yalafi.C03_flows_order', 'Yalafi.C03_flows_complete', 'Yalafi.C03_optional_hidden', 'Yalafi.C03_flow_macros_current', 'Yalafi.C03_detached_flows_current', 'Yalafi.C03_detached_flows_example_current', 'Yalafi.C03_detached_flows_doc1_ref', 'Yalafi.C03_detached_flows_doc1_eval', 'Yalafi.C03_detached_flows_doc2_eval', 'Yalafi.C03_detached_flows_doc3_eval', 'Yalafi.C03_footnotemark_eval']
+               'Yalafi.C03_detached_flows_e2e', 'Yalafi.C03_flows_order', 'Yalafi.C03_flows_complete', 'Yalafi.C03_optional_hidden', 'Yalafi.C03_flow_macros_current', 'Yalafi.C03_detached_flows_current', 'Yalafi.C03_detached_flows_example_current', 'Yalafi.C03_detached_flows_doc1_ref', 'Yalafi.C03_detached_flows_doc1_eval', 'Yalafi.C03_detached_flows_doc2_eval', 'Yalafi.C03_detached_flows_doc3_eval', 'Yalafi.C03_footnotemark_eval',
+               "Yalafi.C03_mix4_e2e", "Yalafi.C03_mix4_words", "Yalafi.C03_mix4_e2e_current", "Yalafi.C03_mix4_example_current", "Yalafi.C03_mix4_example_fuel", "Yalafi.C03_mix4_example_ref", "Yalafi.C03_mix4_example_eval"]
 
 MARKUP = re.compile(r'\\[A-Za-z@]+')
 
